@@ -13,7 +13,6 @@ import (
 	"strings"
 
 	resourcetypes "github.com/projecteru2/core/resource/types"
-	"github.com/projecteru2/core/store/etcdv3"
 	coretypes "github.com/projecteru2/core/types"
 	clientv3 "go.etcd.io/etcd/client/v3"
 )
@@ -90,13 +89,21 @@ func projWl(r resourcetypes.Resources, ncore, nnuma, base int) Event {
 		"bound": len(asMap(p["cpu_map"])) > 0}
 }
 
+// rawKeys reads keys below a prefix directly: resource records always live in etcd (plugin); metadata keys in
+// etcd or, when the redis store is used, in miniredis (both stores share one key layout).
 func (e *Env) rawKeys(prefix string) map[string]string {
 	out := map[string]string{}
-	m, ok := e.Raw.(*etcdv3.Mercury)
-	if !ok {
+	if sharedRedis != nil && !strings.HasPrefix(prefix, "/resource/") {
+		for _, k := range sharedRedis.Keys() {
+			if strings.HasPrefix(k, prefix) {
+				if v, err := sharedRedis.Get(k); err == nil {
+					out[k] = v
+				}
+			}
+		}
 		return out
 	}
-	resp, err := m.Get(context.Background(), prefix, clientv3.WithPrefix())
+	resp, err := e.etcdCli().Get(context.Background(), prefix, clientv3.WithPrefix())
 	if err != nil {
 		return out
 	}
